@@ -501,6 +501,8 @@ type genSess struct {
 	supi, nf, sid string
 	lastGrant     map[int]int
 	live          bool
+	cseq          map[int]int // used unit containers are numbered per charging session and rating group (TS 32.291): a subscriber's
+	// second session starts at 1 again
 }
 
 func fmtReq(supi, nf string, cid, seq int, uri, one int, trigs []string, usages []string) string {
@@ -702,7 +704,11 @@ func genChf(o genOpts, w *bufio.Writer) {
 						part = left / 2
 					}
 					left -= part
-					lsn++
+					if s.cseq == nil {
+						s.cseq = map[int]int{}
+					}
+					s.cseq[rg]++
+					lsn = s.cseq[rg]
 					q := qmi
 					if mixed {
 						// a container that is not online carries a volume of its own (it is not part of the rated usage)
